@@ -162,7 +162,7 @@ func c02r2(c *an.Ctx) {
 	c.Floor("HandlePacket calls in manageReader", 1, n)
 
 	// (b) typestate: "not an older id" (or no current stream) established since the last sbuf.Get
-	flow := &an.Flow{Fn: mr, Init: []string{""},
+	flow := &an.Flow{Fn: mr, Inline: an.InlineSamePackage(mr), Init: []string{""},
 		Step: func(st string, in ssa.Instruction) []string {
 			if call, ok := in.(*ssa.Call); ok && an.IsCallTo(call.Common(), sbufGet) {
 				return []string{""}
@@ -339,34 +339,47 @@ func c02r3(c *an.Ctx) {
 	c.Floor("nil returns of acquireSemaphore", 1, nn)
 
 	// waitForPreviousStream: nil only via prev == nil, prev.IsFinished(), or a receive from prev.Finished()
+	// (path-sensitive, so that `prev == nil || prev.IsFinished()` and separate early returns are the same to it)
 	wf := c.Fn("drpcmanager", "(*Manager).waitForPreviousStream")
+	wflow := &an.Flow{Fn: wf, Init: []string{""}, Inline: an.InlineSamePackage(wf),
+		Step: func(st string, in ssa.Instruction) []string { return nil },
+		Branch: func(st string, br *ssa.If, idx int) (string, bool) {
+			if sc, ok := an.SelectBranch(br, idx); ok {
+				s2 := sc.State()
+				if s2.Dir == types.RecvOnly {
+					if call, ok := s2.Chan.(*ssa.Call); ok && an.IsCallTo(call.Common(), finished) {
+						return addTag(st, "received from prev.Finished()"), true
+					}
+				}
+				return st, true
+			}
+			if x, trueNonNil, ok := nilTestOf(br.Cond); ok {
+				if call, isCall := x.(*ssa.Call); isCall && an.IsCallTo(call.Common(), sbufGet) && (idx == 0) != trueNonNil {
+					return addTag(st, "no previous stream"), true
+				}
+				return st, true
+			}
+			cond, neg := an.StripNot(br.Cond)
+			if call, ok := cond.(*ssa.Call); ok && an.IsCallTo(call.Common(), isFinished) && (idx == 0) != neg {
+				return addTag(st, "previous stream already finished"), true
+			}
+			return st, true
+		},
+	}
+	wres := wflow.Run()
 	nn = 0
 	for _, ret := range an.Returns(wf) {
+		if !wres.Reachable(ret.Block()) {
+			continue
+		}
 		for _, v := range returnedValues(ret, 0) {
 			if !(v == nil || an.IsNilConst(v)) {
 				continue
 			}
-			nn++
-			why := ""
-			for _, g := range an.GuardsOf(ret.Block()) {
-				if x, trueNonNil, ok := nilTestOf(g.Cond); ok && g.True != trueNonNil {
-					if call, isCall := x.(*ssa.Call); isCall && an.IsCallTo(call.Common(), sbufGet) {
-						why = "no previous stream"
-					}
-				}
-				if call, ok := g.Cond.(*ssa.Call); ok && g.True && an.IsCallTo(call.Common(), isFinished) {
-					why = "previous stream already finished"
-				}
+			for _, st := range wres.Before(ret) {
+				nn++
+				c.Check(st != "", "waitForPreviousStream | nil return justified ("+st+")", c.At(ret), st, "waitForPreviousStream can return nil although the previous stream is neither absent nor finished")
 			}
-			for _, sc := range an.SelectGuards(ret.Block()) {
-				st := sc.State()
-				if st.Dir == types.RecvOnly {
-					if call, ok := st.Chan.(*ssa.Call); ok && an.IsCallTo(call.Common(), finished) {
-						why = "received from prev.Finished()"
-					}
-				}
-			}
-			c.Check(why != "", "waitForPreviousStream | nil return justified ("+why+")", c.At(ret), why, "waitForPreviousStream can return nil although the previous stream is neither absent nor finished")
 		}
 	}
 	c.Floor("nil returns of waitForPreviousStream", 1, nn)
@@ -478,7 +491,7 @@ func c02r6(c *an.Ctx) {
 	ms := c.Fn("drpcmanager", "(*Manager).manageStream")
 	enc := func(s, f int) string { return fmt.Sprintf("s%df%d", s, f) }
 	dec := func(st string) (s, f int) { fmt.Sscanf(st, "s%df%d", &s, &f); return }
-	flow := &an.Flow{Fn: ms, Init: []string{enc(0, 0)},
+	flow := &an.Flow{Fn: ms, Inline: an.InlineSamePackage(ms), Init: []string{enc(0, 0)},
 		Step: func(st string, in ssa.Instruction) []string {
 			s, f := dec(st)
 			switch x := in.(type) {
@@ -597,6 +610,40 @@ func c02r6(c *an.Ctx) {
 			}
 		}
 	}
+
+	// newStream: once the stream was handed to the watcher (send on m.streams succeeded) the watcher owns the
+	// semaphore, so newStream must report success: an error return here makes the constructor's failure path
+	// release the semaphore a second time.
+	ns := c.Fn("drpcmanager", "(*Manager).newStream")
+	streamsF := a.field("drpcmanager", "Manager", "streams")
+	nHand := 0
+	for _, ret := range an.Returns(ns) {
+		handed := false
+		for _, sc := range an.SelectGuards(ret.Block()) {
+			st := sc.State()
+			if st.Dir == types.SendOnly && isLoadOfField(st.Chan, streamsF) {
+				handed = true
+			}
+		}
+		if !handed {
+			continue
+		}
+		nHand++
+		okRet := true
+		for _, e := range returnedValues(ret, 1) {
+			if !(e == nil || an.IsNilConst(e)) {
+				okRet = false
+			}
+		}
+		for _, sv := range returnedValues(ret, 0) {
+			if sv == nil || an.IsNilConst(sv) {
+				okRet = false
+			}
+		}
+		c.Check(okRet, "newStream | after handing the stream to the watcher it returns (stream, nil)", c.At(ret), "",
+			"newStream reports failure after the watcher goroutine took the stream: the watcher releases the semaphore when the stream finishes AND the failing constructor releases it again (the second release blocks forever, or lets two streams share the connection)")
+	}
+	c.Floor("returns of newStream after the hand-off", 1, nHand)
 
 	// capacities
 	mw := c.Fn("drpcmanager", "NewWithOptions")
